@@ -12,6 +12,22 @@ NOT_APPLICABLE = {
 }
 
 PROPERTIES = {
+    "C11": {
+        "modules": ["harness.c11"],
+        "explanation": "",
+        "assumptions": COMMON_ASSUMPTIONS + [
+            "link faults are raised by the transport exactly as ledgerblue raises them: BaseException('Error while writing'), "
+            "OSError('read error'), CommException('Timeout', 0x6F00); a failed connect is CommException from getDongle",
+            "the two exit exchanges of uiHeartbeat, where the code expects a link error (USB re-enumeration), are excluded "
+            "from the points at which the link may fail",
+            "a second fault at the IS_ONBOARD exchange of the repair's bring-up is outside the property's quantifier "
+            "(reconnection outcomes are: ok | connect fails k times then ok) and outside this claim",
+            "block / transaction helpers run natively on the concrete catalogue entries",
+        ],
+        "level_text": "bounded symbolic verification of two- and three-request histories on one real protocol object: fault kind, "
+                      "follow-up request and reconnection scenario are solver variables, fault position is a partition",
+        "level_note": "trusted: CrossHair/z3, the simulated transport/device, formatting stubs",
+    },
     "C04": {
         "modules": ["harness.c04"],
         "explanation": "",
